@@ -5,6 +5,7 @@ number of entries (head + tail object) satisfying its representation invariant (
 amounts positive, locked_funds = sum of the table), MinerInfo (see C13) and the scheduling fields."""
 from .common import *
 from . import C13
+from .C12 import _addr_json
 
 MINER = 'fil_actor_miner'
 CRATES = ['fil_actors_runtime', 'fil_actor_miner']
@@ -74,6 +75,8 @@ def mk_miner_state(E, nvest=1, ncontrol=0, with_info=True):
         fields[ST['info']] = fget(E, ip['st'], ST['info'], CID)
         pre['info'] = ip['info']
         pre['owner'], pre['worker'], pre['ben'] = ip['owner'], ip['worker'], ip['ben']
+    if 'rt' in ctx.env:
+        ctx.assume(ctx.env['rt'].receiver.key >= 100)
     st = StructV('State', fields, lazy='st')
     pcd = fget(E, st, ST['pre_commit_deposits'], TOKEN).v
     lf = fget(E, st, ST['locked_funds'], TOKEN).v
@@ -122,3 +125,80 @@ def solvency(rt, led):
     """balance >= pre-commit deposits + vesting funds + initial pledge, all ledgers non-negative"""
     return z3.And(led['pcd'] >= 0, led['lf'] >= 0, led['ip'] >= 0, led['fd'] >= 0,
                   rt.balance >= led['pcd'] + led['lf'] + led['ip'])
+
+
+# ---------------------------------------------------------------------------------------
+# native replay scenarios ("miner" adapter)
+
+def _opt(m, some, f):
+    return f() if ev(m, some) else None
+
+
+def info_json(E, m, info):
+    v = C13.view(E, info)
+    d = {'owner': ev(m, v['owner'].key), 'worker': ev(m, v['worker'].key), 'control': [ev(m, x.key) for x in v['control']],
+         'beneficiary': ev(m, v['ben'].key),
+         'beneficiary_term': {'quota': str(ev(m, v['quota'])), 'used_quota': str(ev(m, v['used'])), 'expiration': ev(m, v['exp'])},
+         'pending_owner': _opt(m, v['po_some'], lambda: ev(m, v['po'].key)),
+         'pending_worker': _opt(m, v['pw_some'], lambda: {'new_worker': ev(m, v['pw_new'].key), 'effective_at': ev(m, v['pw_at'])}) if v['pw_new'] is not None else None,
+         'pending_beneficiary': _opt(m, v['pb_some'], lambda: {'new_beneficiary': ev(m, v['pb_new'].key), 'new_quota': str(ev(m, v['pb_quota'])),
+                                                               'new_expiration': ev(m, v['pb_exp']), 'approved_by_beneficiary': bool(ev(m, v['pb_by_ben'])),
+                                                               'approved_by_nominee': bool(ev(m, v['pb_by_nom']))}) if 'pb_new' in v else None}
+    MI = Fields('actors/miner/src/state.rs', 'MinerInfo')
+    d['consensus_fault_elapsed'] = ev(m, fget(E, info, MI['consensus_fault_elapsed'], 'i64').v)
+    return d
+
+
+def ledgers_json(E, m, st, vents=None):
+    ST = SF()
+    led = ledgers(E, st)
+    ents = [(e, a) for (e, a, k) in led['vents']]
+    return {'pre_commit_deposits': str(ev(m, led['pcd'])), 'locked_funds': str(ev(m, led['lf'])), 'initial_pledge': str(ev(m, led['ip'])),
+            'fee_debt': str(ev(m, led['fd'])), 'vesting': [{'epoch': ev(m, e), 'amount': str(ev(m, a))} for (e, a) in ents],
+            'vesting_total': str(ev(m, sum(a for (_, a) in ents) if ents else 0))}
+
+
+def miner_scenario(method, params_fn=None, ret_of=None):
+    def scenario(E, res, m):
+        ST = SF()
+        env = res.ctx.env
+        rt, pre = env['rt'], env['pre']
+        st0 = pre['st']
+        try:
+            st_json = ledgers_json(E, m, st0)
+        except Exception:
+            # obligations over MinerInfo only: ledgers are irrelevant to the method, replay with an empty ledger
+            st_json = {'pre_commit_deposits': '0', 'locked_funds': '0', 'initial_pledge': '0', 'fee_debt': '0', 'vesting': [], 'vesting_total': '0'}
+        sc = {'actor': 'miner', 'method': method, 'state': st_json, 'caller': ev(m, rt.caller.key),
+              'receiver': ev(m, rt.receiver.key), 'epoch': ev(m, rt.epoch), 'balance': str(ev(m, z3.Int('rt.balance'))),
+              'value_received': str(ev(m, rt.value_received)), 'entry': 'direct',
+              'sends': send_script(E, rt, m, ret_of(E, res, m) if ret_of else None)}
+        sc['state']['proving_period_start'] = ev(m, pre['pps']) if 'pps' in pre else 0
+        try:
+            et = fget(E, st0, ST['early_terminations'], 'fvm_ipld_bitfield::BitField')
+            sc['state']['early_terminations_empty'] = bool(ev(m, models_fvm.bitfield_empty(E, et)))
+        except Exception:
+            sc['state']['early_terminations_empty'] = True
+        if 'info' in pre:
+            sc['info'] = info_json(E, m, pre['info'])
+        from .C12 import _resolve_json
+        sc['resolve'] = _resolve_json(E, rt, m)
+        if params_fn:
+            sc['params'] = params_fn(E, res, m)
+        cf = [k for k in res.ctx.memo if isinstance(k, tuple) and len(k) == 3 and k[0] == 'mat' and k[2].endswith('.fault.0')]
+        if cf:
+            base = cf[0][2][:-2]
+            sc['consensus_fault'] = {'target': ev(m, z3.Int(base + '.0.key')), 'epoch': ev(m, z3.Int(base + '.1'))}
+        pred = {'result': result_pred(E, res, m), 'sends': sends_pred(E, rt, m)}
+        if res.kind == 'return' and is_ok(res.value) and rt.state is not None:
+            try:
+                pred['state'] = ledgers_json(E, m, rt.state)
+                pred['state'].pop('vesting', None)
+            except Exception:
+                pass
+            if 'info' in pre:
+                i1 = C13.info_after(E, rt)
+                pred['info'] = info_json(E, m, i1 if i1 is not None else pre['info'])
+        sc['predicted'] = pred
+        return sc
+    return scenario
